@@ -20,9 +20,11 @@
    skipped region - gives the same result on two texts whose bytes have the same classes position by position (digit,
    hex letter a-f, hex letter A-F, other lower case, other upper case, each reserved character as itself, anything else);
    so do the From-tag signature and the Call-ID signature for a given place of the IP address.
+   The Via branch signature is that of the first parameter named branch (C19_via_branch_signature, for a Via text whose first
+   parameter is the branch) and depends on the classes of its text after the RFC 3261 prefix.
    PARTIAL: where ContainsIP6 finds the address (supplied by the code in the correspondence run; ContainsIP4 is modelled:
-   C20); the Via branch signature as a function of the Via text (model + correspondence + oracle). *)
-From Sipsp Require Import Harness Tables SigWalk SigInv SigCoherent SigFun StrSig StrSigClass.
+   C20); other shapes of the Via text (branch not the first parameter, white space, quoted values): model + correspondence + oracle. *)
+From Sipsp Require Import Harness Tables SigWalk SigInv SigCoherent SigFun StrSig StrSigClass TokSpec.
 Theorem C19_replies_yield_no_signature : forall cs ss vs m buf, msg_request m = false ->
   get_msg_sig cs ss vs m buf = Some (msgsig0, EEmpty).
 Proof. exact reply_no_sig. Qed.
@@ -119,6 +121,22 @@ Proof.
   - intros H. repeat match type of H with context [if ?a =? ?b then _ else _] => let E := fresh "E" in destruct (a =? b) eqn:E; [apply N.eqb_eq in E; subst; cbn; tauto|] end. congruence.
   - intros H. cbn [In] in H. repeat destruct H as [<-|H]; try discriminate. contradiction.
 Qed.
+(* the Via branch signature is that of the first parameter named branch: the text after the RFC 3261 prefix if it has one, its
+   classes decide (host-part without ";", the value made of plain parameter bytes, ending the Via text or followed by a parameter) *)
+Theorem C19_via_branch_signature : forall (host : list byte) v0 value,
+  Forall (fun d => (d =? 59) = false) host -> plain viabr_flags v0 -> Forall (plain viabr_flags) value ->
+  viabr_sig_len (host ++ (59 : byte) :: str_branch ++ (61 : byte) :: v0 :: value) = Some (branch_res (v0 :: value)) /\
+  forall c tail, plain viabr_flags c ->
+    viabr_sig_len (host ++ (59 : byte) :: str_branch ++ (61 : byte) :: (v0 :: value) ++ (59 : byte) :: c :: tail) = Some (branch_res (v0 :: value)).
+Proof. intros host v0 value Hh Hv0 Hval. split; [apply viabr_branch_last; assumption|intros c tail Hc; apply viabr_branch_then_more; assumption]. Qed.
+Theorem C19_via_branch_result_means : forall val,
+  branch_res val = (if (7 <? nnat (length val)) && eqb_nocase (firstn 7 val) str_brprefix then (str_sig0 (skipn 7 val), nnat (length val) - 7)
+                    else (str_sig0 val, nnat (length val))) /\
+  str_branch = [98; 114; 97; 110; 99; 104] /\ str_brprefix = [122; 57; 104; 71; 52; 98; 75].
+Proof. intros. repeat split; reflexivity. Qed.
+Theorem C19_via_branch_signature_classes : forall val val', firstn 7 val = firstn 7 val' ->
+  map bclass (skipn 7 val) = map bclass (skipn 7 val') -> map bclass val = map bclass val' -> branch_res val = branch_res val'.
+Proof. exact branch_res_classes. Qed.
 (* satisfiable and evaluated: the hex / block guess of two texts with the same classes *)
 Example C19_classes_example :
   map bclass [97;49;98;50;99;51;100;52;45;101;53] = map bclass [102;57;101;56;100;55;99;54;45;98;48] /\
@@ -128,5 +146,6 @@ Example C19_classes_example :
 Proof. repeat split; vm_compute; reflexivity. Qed.
 Print Assumptions C19_string_signature_depends_only_on_character_classes.
 Print Assumptions C19_callid_signature_classes.
+Print Assumptions C19_via_branch_signature.
 Print Assumptions C19_other_headers_do_not_matter.
 Print Assumptions C19_other_headers_do_not_matter_for_parsed_messages.
